@@ -296,6 +296,7 @@ func (p *Scheduler) AddTask(
 	onEnd OnEndCb,
 	deadline time.Time,
 ) {
+	verifAddTask(p.ID(), ID, jobSubmitted)
 	newLength := p.tasks.Add(ID, dest, jobSubmitted, deadline, onSubmit, onDisconnect, onEnd)
 
 	if newLength == 1 {
